@@ -171,7 +171,13 @@ def optDefect (fs : List FieldDecl) : List String :=
         | _ => ["optional-unchecked:non-none-option"])
     else if isNoneF x then (if isRawScalar y then [] else ["optional-unchecked:none-first"])
     else ["crash:enum-mapping"]
-  | _ => if fs.any isNoneF then ["anyof-with-none:unproved"] else ["crash:enum-mapping"]
+  | _ =>
+    if fs.any isNoneF then
+      (match fs with
+        | .enumCls _ _ :: _ => ["crash:enum-mapping"]      -- `EnumClass[value]` on any truthy value
+        | .enumLit _ :: _ => ["crash:enum-mapping"]
+        | _ => ["anyof-with-none:unproved"])
+    else ["crash:enum-mapping"]
 
 mutual
 /-- the known defects a field declaration runs into -/
@@ -215,7 +221,9 @@ termination_by structural f => f
 
 def defectsHead : List FieldDecl → List String
   | [] => []
-  | x :: _ => (defectsD x).filter (· != "ineligible-shape")
+  | x :: _ =>
+    -- a shape the classifier would refuse, reached through the unchecked option
+    (defectsD x).map fun t => if t == "ineligible-shape" then "optional-unchecked:non-none-option" else t
 termination_by structural fs => fs
 
 def defectsFields : List (String × FieldDecl) → List String
@@ -329,10 +337,11 @@ def storedFields (defaults kw : List (String × PyVal)) : List (String × FieldD
   | (n, f) :: rest =>
     (match lookup n kw with
       | none => noDefault defaults n
-      | some v => rawOkV f v) && storedFields defaults kw rest
+      | some v => rawOkV f v && (!v.isNone || noDefault defaults n)) && storedFields defaults kw rest
 
 /-- the keyword arguments are already in the form the constructor stores: every argument is a
-    declared field's, passes `rawOkV`, and no omitted field has a default -/
+    declared field's, passes `rawOkV`, and no field that is omitted (or given None) has a default
+    (an unset attribute reads as the default, an attribute holding None as None) -/
 def storedKw (cls : FieldDecl) (kw : List (String × PyVal)) : Bool :=
   match cls with
   | .struct _ fields defaults =>
@@ -379,7 +388,8 @@ def kwIssues (cls : FieldDecl) (kw : List (String × PyVal)) : List String :=
     ((if kw.all (fun a => (fields.map (·.1)).contains a.1) then [] else ["dropped:undeclared-keys"])
       ++ (fields.map fun p => match lookup p.1 kw with
             | none => if noDefault defaults p.1 then [] else ["defaults-not-applied"]
-            | some v => rawIssuesV p.2 v).flatten).eraseDups
+            | some v => rawIssuesV p.2 v
+                        ++ (if v.isNone && !noDefault defaults p.1 then ["defaults-not-applied"] else [])).flatten).eraseDups
   | _ => ["not-a-class"]
 
 
